@@ -141,6 +141,17 @@ theorem C16_anytrait_is_source (nn nt remove : Bool) (ty : Nat) :
       { anyHooks := [TraitsVerif.Model.LisL.Who.user], done := true } :=
   TraitsVerif.Model.LisL.anytrait_table nn nt remove ty
 
+/-- Re-registration is synchronous: every notifier bound to a `ListenerItem` method is installed with
+`dispatch="extended"`, every notifier of the user's handler with the user's dispatch — for every link
+kind (Instance, List, Set, Dict), connector, handler type and for registration and removal.  Before
+/repo 257ca45 this failed for Dict links (finding F105, repaired). -/
+theorem C16_reregistration_sync (l : Link) (ty : Nat)
+    (hty : ty = prog.anyListener ∨ ty = prog.srcListener ∨ ty = prog.dstListener) (remove : Bool) :
+    ∀ p ∈ (TraitsVerif.Model.LisL.summary prog (TraitsVerif.Model.LisL.dvtOf l.attr)
+        { nextNone := false, notify := l.notify, type := ty, remove := remove }).hooks,
+      p.2.2 = (match p.2.1 with | .tl _ => true | .user => false) :=
+  TraitsVerif.Model.LisL.reregistration_sync_table l ty hty remove
+
 /-! ### the parser: what '.' and ':' mean -/
 
 /-- `ListenerParser(name, deferred=d, handler_type=ty).listener`, interpreted from the translated
